@@ -694,8 +694,14 @@ pub fn program(rng: &mut Rng) -> Program {
         vec!["gen".into(), "a".into(), "b".into()],
         vec!["gen".into(), "c".into()],
         vec!["other_crate".into(), "types".into()],
+        vec!["gen".into(), "v1".into()],
+        vec!["gen".into(), "v10".into()],
+        vec!["gen".into(), "v1".into(), "x".into()],
+        vec!["gen2".into()],
     ];
-    let names = ["Foo", "Bar", "Baz", "Qux", "Node", "Item", "Call", "Event", "Data", "Info", "Wrapper"];
+    let names = [
+        "Foo", "Bar", "Baz", "Qux", "Node", "Item", "Call", "Event", "Data", "Info", "Wrapper", "Foo1", "Foo12", "Event2",
+    ];
     let mut g = Gen {
         rng,
         defs: vec![],
